@@ -40,7 +40,7 @@ def gen_case(rng):
         if r < 0.55:
             outcome = rng.choice(["ok", "ok", "fail", "fail", "abort"])
             steps.append({"cmd": "run", "target": rng.choice(["//:top", "//:e1", "//a:e2", "//:top"]), "again": rng.random() < 0.5, "outcome": outcome,
-                          "victim": rng.choice(["//:e1", "//a:e2", "//a:e3"]), "jobs": rng.choice([None, None, 3]), "clock": clock})
+                          "victim": rng.choice(["//:e1", "//a:e2", "//a:e3", "//a/b/deep:e4"]), "jobs": rng.choice([None, None, 3]), "clock": clock})
         elif r < 0.7:
             steps.append({"cmd": "archive", "clock": clock})
             have_archive = True
@@ -53,7 +53,8 @@ def gen_case(rng):
 
 def project(scroot, name):
     tasks = [gen.mk_task("", "e1", "run_experiment", par=True), gen.mk_task("a", "e2", "run_experiment", ["//:e1"], par=True), gen.mk_task("a", "e3", "run_experiment", par=True),
-             gen.mk_task("", "c", "run_command", ["//a:e2"]), gen.mk_task("", "top", "combine", ["//:c", "//a:e3", "//a:e2"])]
+             gen.mk_task("a/b/deep", "e4", "run_experiment", ["//a:e2"], par=True),
+             gen.mk_task("", "c", "run_command", ["//a:e2"]), gen.mk_task("", "top", "combine", ["//:c", "//a:e3", "//a:e2", "//a/b/deep:e4"])]
     scripts = {t["id"]: {"steps": [["file", "data/o.bin", realrun.b64(os.urandom(16))], ["marker"]]} for t in tasks if t["kind"] in gen.PROC_KINDS}
     return realrun.Project(scroot, tasks, scripts, name=name)
 
@@ -141,7 +142,30 @@ def eval_case(case):
                 out["inconclusive"].append({"why": "command timed out (watchdog)", "detail": cli.brief(r)})
                 break
             # (a)+(b): every experiment execution of this command
-            for e in pr.events(new_only=True):
+            evs_now = pr.events(new_only=True)
+            vers_now = {}
+            for e in evs_now:
+                if e["kind"] == "start" and pr.tb[e["task"]]["kind"] == "run_experiment":
+                    try:
+                        vers_now[e["task"]] = int(e["env"]["COND_OUT"].rsplit(".", 1)[1])
+                    except ValueError:
+                        pass
+            anc = gen.ancestors_map(pr.tb)
+            for x, vx in vers_now.items():
+                for d in anc[x]:
+                    # a dependency executed in this invocation is recorded before its dependent starts:
+                    # the dependent's version id must be strictly greater
+                    if d in vers_now:
+                        bump("c08_in_invocation_order_checks")
+                        if vx <= vers_now[d]:
+                            out["violations"].append({"key": "C08:version-id-not-greater-than-recorded", "msg": "%s got version %s although its dependency %s was executed (and recorded) in the same invocation as version %s" % (x, vx, d, vers_now[d]), "witness": W})
+            if out["violations"]:
+                break
+            if len(set(vers_now.values())) != len(vers_now):
+                dup = sorted(vers_now.items(), key=lambda kv: kv[1])
+                out["violations"].append({"key": "C08:version-id-handed-out-twice", "msg": "two experiment executions of one invocation share a version id: %s" % dup, "witness": W})
+                break
+            for e in evs_now:
                 if e["kind"] != "start" or pr.tb[e["task"]]["kind"] != "run_experiment":
                     continue
                 nexec += 1
